@@ -18,6 +18,23 @@ SUBMITS = ["PRINT 1", "RUN", "LIST", "NEW", "CONT", "10 PRINT 5", "20 GOTO 10", 
            "PRINT RND(1)", "READ A", "RETURN", "CONT", "18446744073709551615 PRINT 1", "DIM B(4294967295,4294967295)"]
 
 
+# scripted sessions (run first, every time): flags across NEW, an edit that deletes a half-read DATA line and a READ
+# whose error is then located on it (caret rendering), an error latched by a timer tick and left pending
+FIXED_SCRIPTS = [
+    [("start", ""), ("submit", "TRACE"), ("submit", "NEW"), ("submit", "10 PRINT 1"), ("submit", "20 PRINT 2"), ("submit", "RUN"),
+     ("tick", ""), ("tick", ""), ("tick", ""), ("tick", "")],
+    [("load", "10 DATA 1,HELLO\n20 READ A\n30 INPUT X$\n40 PRINT A;X$"), ("start", ""), ("tick", ""), ("tick", ""), ("tick", ""), ("tick", ""),
+     ("breakkey", ""), ("submit", "10"), ("submit", "READ B"), ("submit", "PRINT B"), ("submit", "CONT")],
+    [("load", "10 DATA 1,HELLO\n20 READ A\n30 STOP"), ("start", ""), ("tick", ""), ("tick", ""), ("tick", ""), ("submit", "10 REM"),
+     ("submit", "READ B$"), ("submit", "READ C"), ("submit", "PRINT C")],
+    [("load", "10 FOR I = 1 TO 3\n20 GOSUB 50\n30 NEXT I\n40 END\n50 PRINT 1/(2-I)\n60 RETURN"), ("start", "")] + [("tick", "")] * 14
+    + [("submit", "PRINT I"), ("submit", "RETURN"), ("submit", "NEXT I")],
+    [("start", ""), ("submit", "10 INPUT A$"), ("submit", "20 PRINT A$ : GOTO 10"), ("submit", "RUN"), ("tick", ""), ("submit", BREAK_ALIAS),
+     ("submit", "20"), ("submit", "CONT"), ("submit", "RUN"), ("tick", ""), ("submit", "x,y"), ("tick", ""), ("tick", ""), ("breakkey", ""), ("submit", "NEW"),
+     ("submit", "CONT"), ("submit", "LIST")],
+]
+
+
 def parse_page(resp):
     parts = resp.split("\t")
     if parts[0] == "dead":
@@ -40,16 +57,19 @@ def run_c19(chk):
         h.cmd("page", "new")
         h.cmd("page", "seed", cmds[1].split("\t")[2])
         events = []
-        if r.chance(0.6):
-            if i < len(PAGE_PROGRAMS):
-                prog = PAGE_PROGRAMS[i]
+        if i < len(FIXED_SCRIPTS):
+            events = list(FIXED_SCRIPTS[i])
+        elif r.chance(0.6):
+            if i - len(FIXED_SCRIPTS) < len(PAGE_PROGRAMS):
+                prog = PAGE_PROGRAMS[i - len(FIXED_SCRIPTS)]
             elif r.chance(0.5):
                 prog = r.choice(PAGE_PROGRAMS)
             else:
                 prog = files.gen_file(r, well_formed=r.chance(0.6))
             events.append(("load", "\n".join(prog)))
-        events.append(("start", ""))
-        for _ in range(3 + r.below(14)):
+        if i >= len(FIXED_SCRIPTS):
+            events.append(("start", ""))
+        for _ in range(0 if i < len(FIXED_SCRIPTS) else 3 + r.below(14)):
             k = r.weighted([("tick", 45), ("submit", 35), ("breakkey", 12), ("gen", 8)])
             if k == "tick":
                 events.append(("tick", ""))
@@ -88,7 +108,8 @@ def run_c19(chk):
         cases.append((cmds[1].split("\t")[2], events, trace))
         chk.case(tuple(events), nontrivial=len(events) > 3, sample={"events": [list(e) for e in events][:6]})
     # indistinguishability after NEW, on its own: same probes after NEW and on a fresh page
-    probes = ["PRINT X;A$;N(3)", "LIST", "CONT", "RETURN", "NEXT I", "READ Q", "PRINT FNA(1)", "PRINT RND(0)"]
+    probes = ["PRINT X;A$;N(3)", "LIST", "CONT", "RETURN", "NEXT I", "READ Q", "PRINT FNA(1)", "PRINT RND(0)", "10 PRINT Z9", "20 PRINT 2 : PRINT Q(1)",
+              "RUN"]
     for i in range(12 if chk.tier == "quick" else 200):
         r = chk.rng.fork(("c19n", i))
         hist = [r.choice(SUBMITS + ["10 DATA 1,2", "20 READ A", "X = 5", "A$ = \"q\"", "DIM N(5)", "DEF FNA(X) = X", "FOR I = 1 TO 9", "GOSUB 10"])
